@@ -147,7 +147,7 @@ func c15ProcessPublish(e *c15env) {
 			return true
 		})
 	}
-	res := analyze(c, f, flow.Config{
+	res := e.analyse(f, fns, flow.Config{
 		NoHavoc: true,
 		Inline:  e.inline(f, e.writePacket),
 		OnNode: func(st *flow.State, n ast.Node) {
@@ -195,7 +195,7 @@ func c15ProcessPublish(e *c15env) {
 			c.Violate("R-C15-4", wc, pos(c, w.site.node), "the Puback written is not a packet created for this PUBLISH (it is "+w.what+"): a packet shared between calls gets the MessageID of the next PUBLISH before the writer has sent it")
 			continue
 		}
-		states := res.At[w.site.node]
+		states := res.at(w.site.node)
 		if len(states) == 0 && (w.site.fn.Body != f.Body || c15enclosingLit(w.site.fn, w.site.node) != nil) {
 			c.Undecide("R-C15-4", wc, pos(c, w.site.node), "the helper "+c15declName(w.site.fn)+" writing the Puback is not interpreted in place (go, defer or nested call)")
 			continue
@@ -209,7 +209,7 @@ func c15ProcessPublish(e *c15env) {
 			if w.vars[a.obj] {
 				nstatic++
 				static = static && a.echo
-				if len(res.At[a.at]) > 0 {
+				if len(res.at(a.at)) > 0 {
 					interpreted = true
 				}
 			}
@@ -260,13 +260,54 @@ func c15ProcessPublish(e *c15env) {
 	ok := true
 	var bad *flow.State
 	exits := 0
-	for _, ex := range res.Exits {
+	for _, ex := range res.main.Exits {
 		if ex.Kind != flow.ExitReturn {
 			continue
 		}
 		exits++
 		if !ex.State.Is("ev:acked", flow.True) && qos1(ex.State) != flow.False {
 			ok, bad = false, ex.State
+		}
+	}
+	if !ok {
+		// shapes the path facts cannot express: the level looked up in a table / handed to a function that
+		// is not interpreted in place, or the acknowledgement written inside a function literal
+		opaque := ""
+		for _, g := range fns {
+			ast.Inspect(g.Body, func(n ast.Node) bool {
+				switch x := n.(type) {
+				case *ast.IndexExpr:
+					if qosTerms[g.Render(ast.Unparen(x.Index))] {
+						opaque = "the QoS level indexes a table at " + pos(c, x)
+					}
+				case *ast.CallExpr:
+					o, _ := c15callee(g, x)
+					if h := e.byObj[o]; h != nil && res.inlined(h) {
+						return true
+					}
+					if tv, ok := g.Info.Types[x.Fun]; ok && tv.IsType() {
+						return true
+					}
+					if tv, ok := g.Info.Types[x]; !ok || tv.Type == nil || !types.Identical(tv.Type.Underlying(), types.Typ[types.Bool]) {
+						return true // only a predicate can decide the branch
+					}
+					for _, a := range x.Args {
+						if qosTerms[g.Render(ast.Unparen(a))] {
+							opaque = "the QoS level is handed to a call that is not interpreted in place at " + pos(c, x)
+						}
+					}
+				}
+				return true
+			})
+		}
+		for _, w := range writes {
+			if c15enclosingLit(w.site.fn, w.site.node) != nil {
+				opaque = "the Puback is written inside a function literal"
+			}
+		}
+		if opaque != "" {
+			c.Undecide("R-C15-4", cons+"|QoS1 case writes the puback", pos(c, f.Body), "cannot decide on which QoS levels the Puback is written: "+opaque)
+			return
 		}
 	}
 	c.Check(ok && exits > 0, "R-C15-4", cons+"|QoS1 case writes the puback", pos(c, f.Body), sprintf("%d exits: each either wrote the Puback or is a path with Qos != 1", exits),
@@ -284,41 +325,145 @@ func c15Wrappers(e *c15env) map[types.Object]bool {
 	runObj := e.obj(e.runPipeline)
 	for _, f := range e.fns {
 		sig := e.sig(f)
-		if sig == nil || sig.Recv() != nil {
+		if sig == nil || sig.Recv() != nil || sig.Results().Len() != 1 {
 			continue
 		}
-		var lit *ast.FuncLit
-		var runCall *ast.CallExpr
+		if _, ok := sig.Results().At(0).Type().Underlying().(*types.Signature); !ok {
+			continue
+		}
+		var fparams []*types.Var
+		for i := 0; i < sig.Params().Len(); i++ {
+			if _, ok := sig.Params().At(i).Type().Underlying().(*types.Signature); ok {
+				fparams = append(fparams, sig.Params().At(i))
+			}
+		}
+		if len(fparams) == 0 {
+			continue
+		}
+		// what the wrapper returns: a closure, or a method value of a struct holding the captured
+		// variables as fields (`return pipelineProcessor{fn: fn, ..}.process`)
+		var lf *flow.Func      // the body that runs per packet
+		var at ast.Node        // position for reports
+		var recvX ast.Expr     // method form: the receiver operand in the wrapper
+		var recvV types.Object // method form: the receiver variable of the method
 		ast.Inspect(f.Body, func(n ast.Node) bool {
-			if l, ok := n.(*ast.FuncLit); ok && lit == nil {
-				for _, call := range calls(l.Body, false) {
-					if o, _ := c15callee(f, call); o == runObj {
-						lit, runCall = l, call
+			r, ok := n.(*ast.ReturnStmt)
+			if !ok || len(r.Results) != 1 || lf != nil {
+				return true
+			}
+			x := ast.Unparen(r.Results[0])
+			if id, ok := x.(*ast.Ident); ok {
+				if v, ok := c15objOf(f, id).(*types.Var); ok && !v.IsField() {
+					if defs := c15defs(f, v); len(defs) == 1 && defs[0].rhs != nil && defs[0].idx < 0 {
+						x = ast.Unparen(defs[0].rhs)
 					}
 				}
-				return false
+			}
+			switch v := x.(type) {
+			case *ast.FuncLit:
+				lf, at = f.Lit(v), v
+			case *ast.SelectorExpr:
+				if s := f.Info.Selections[v]; s != nil && s.Kind() == types.MethodVal {
+					if m := e.byObj[s.Obj()]; m != nil {
+						if fd, ok := m.Node.(*ast.FuncDecl); ok && fd.Recv != nil && len(fd.Recv.List) == 1 && len(fd.Recv.List[0].Names) == 1 {
+							lf, at, recvX, recvV = m, fd, v.X, m.Info.Defs[fd.Recv.List[0].Names[0]]
+						}
+					}
+				}
 			}
 			return true
 		})
-		if lit == nil {
+		if lf == nil {
 			continue
 		}
-		// the wrapped function: a parameter of function type called inside the closure
-		var fnCall *ast.CallExpr
-		hasFuncParam := false
-		for i := 0; i < sig.Params().Len(); i++ {
-			p := sig.Params().At(i)
-			if _, ok := p.Type().Underlying().(*types.Signature); !ok {
-				continue
+		var runCall *ast.CallExpr
+		for _, call := range calls(lf.Body, false) {
+			if o, _ := c15callee(lf, call); o == runObj {
+				runCall = call
 			}
-			hasFuncParam = true
-			for _, call := range calls(lit.Body, false) {
-				if id, ok := ast.Unparen(call.Fun).(*ast.Ident); ok && f.Info.Uses[id] == p {
+		}
+		if runCall == nil {
+			continue
+		}
+		// the wrapped function: the wrapper's function parameter, called in that body directly (closure) or
+		// through the field it was stored in (method form)
+		isParam := func(o types.Object) bool {
+			for _, p := range fparams {
+				if o == p {
+					return true
+				}
+			}
+			return false
+		}
+		var fnCall *ast.CallExpr
+		unlinked := false
+		for _, call := range calls(lf.Body, false) {
+			switch fun := ast.Unparen(call.Fun).(type) {
+			case *ast.Ident:
+				if isParam(lf.Info.Uses[fun]) {
 					fnCall = call
+				}
+			case *ast.SelectorExpr:
+				s := lf.Info.Selections[fun]
+				if s == nil || s.Kind() != types.FieldVal || recvV == nil {
+					continue
+				}
+				fld, ok := s.Obj().(*types.Var)
+				if !ok {
+					continue
+				}
+				if _, isFunc := fld.Type().Underlying().(*types.Signature); !isFunc {
+					continue
+				}
+				if id, ok := ast.Unparen(fun.X).(*ast.Ident); !ok || c15objOf(lf, id) != recvV {
+					continue
+				}
+				// the field holds the wrapper's parameter: given in the composite literal of the receiver
+				// operand, or assigned to it in the wrapper
+				linked := false
+				x := ast.Unparen(recvX)
+				var holder types.Object
+				if id, ok := x.(*ast.Ident); ok {
+					holder = c15objOf(f, id)
+					if defs := c15defs(f, holder); len(defs) == 1 && defs[0].rhs != nil && defs[0].idx < 0 {
+						x = ast.Unparen(defs[0].rhs)
+					}
+				}
+				if lit := litOf(x); lit != nil {
+					if val := c15litField(f, lit, fld); val != nil {
+						if id, ok := ast.Unparen(val).(*ast.Ident); ok && isParam(f.Info.Uses[id]) {
+							linked = true
+						}
+					}
+				}
+				if holder != nil {
+					ast.Inspect(f.Body, func(n ast.Node) bool {
+						if as, ok := n.(*ast.AssignStmt); ok && len(as.Lhs) == len(as.Rhs) {
+							for i, l := range as.Lhs {
+								ls, ok := ast.Unparen(l).(*ast.SelectorExpr)
+								if !ok || !e.selects(ls, fld) {
+									continue
+								}
+								if id, ok := ast.Unparen(ls.X).(*ast.Ident); ok && c15objOf(f, id) == holder {
+									id2, ok := ast.Unparen(as.Rhs[i]).(*ast.Ident)
+									linked = ok && isParam(f.Info.Uses[id2])
+								}
+							}
+						}
+						return true
+					})
+				}
+				if linked {
+					fnCall = call
+				} else {
+					unlinked = true
 				}
 			}
 		}
-		if !hasFuncParam {
+		lit := at
+		if fnCall == nil && unlinked {
+			out[e.obj(f)] = true
+			c.Undecide("R-C15-4", e.name(f)+"|pipeline then process", pos(c, lit), "cannot see that the function field called after the pipeline holds the wrapper's function parameter")
 			continue
 		}
 		out[e.obj(f)] = true
@@ -328,10 +473,9 @@ func c15Wrappers(e *c15env) map[types.Object]bool {
 			c.Violate("R-C15-4", cons+"|pipeline then process", pos(c, lit), "the wrapper does not call both the pipeline and the wrapped processing function")
 			continue
 		}
-		lf := f.Lit(lit)
 		errKey := lf.NilKey(runCall) // `if c.runPipeline(..) != nil`
-		ast.Inspect(lit.Body, func(n ast.Node) bool {
-			if as, ok := n.(*ast.AssignStmt); ok && len(as.Rhs) == 1 && ast.Unparen(as.Rhs[0]) == runCall && len(as.Lhs) == 1 {
+		ast.Inspect(lf.Body, func(n ast.Node) bool {
+			if as, ok := n.(*ast.AssignStmt); ok && len(as.Rhs) == 1 && ast.Unparen(as.Rhs[0]) == ast.Expr(runCall) && len(as.Lhs) == 1 {
 				errKey = lf.NilKey(as.Lhs[0])
 			}
 			return true
@@ -420,6 +564,11 @@ func c15Table(e *c15env, wrappers map[types.Object]bool) {
 		base = &flow.Func{Pkg: pkg, Info: pkg.TypesInfo, Fset: pkg.Fset, Name: cons, Node: v, Body: v.Body, Type: v.Type}
 	case *ast.Ident:
 		base = e.byObj[pkg.TypesInfo.Uses[v]]
+	case *ast.SelectorExpr: // method expression (*Client).handlePublish
+		probe := &flow.Func{Pkg: pkg, Info: pkg.TypesInfo, Fset: pkg.Fset, Body: &ast.BlockStmt{}}
+		if o, _ := c15funcValue(probe, v); o != nil {
+			base = e.byObj[o]
+		}
 	case *ast.CallExpr:
 		probe := &flow.Func{Pkg: pkg, Info: pkg.TypesInfo, Fset: pkg.Fset, Body: &ast.BlockStmt{}}
 		o, _ := c15callee(probe, v)
@@ -519,7 +668,18 @@ func c15Table(e *c15env, wrappers map[types.Object]bool) {
 	limit := limits[0]
 	argOK := false
 	for _, a := range wrapInner.Args {
-		if id, ok := ast.Unparen(a).(*ast.Ident); ok && e.processPublish != nil && pkg.TypesInfo.Uses[id] == e.obj(e.processPublish) {
+		// processPublish, (*Client).processPublish, or a local holding one of them
+		x := ast.Unparen(a)
+		if id, ok := x.(*ast.Ident); ok {
+			if v, ok := pkg.TypesInfo.Uses[id].(*types.Var); ok && !v.IsField() {
+				if g := e.fnAt(v.Pos()); g != nil {
+					if defs := c15defs(g, v); len(defs) == 1 && defs[0].rhs != nil && defs[0].idx < 0 {
+						x = ast.Unparen(defs[0].rhs)
+					}
+				}
+			}
+		}
+		if o, _ := c15funcValue(base, x); o != nil && e.processPublish != nil && o == e.obj(e.processPublish) {
 			argOK = true
 		}
 	}
